@@ -5,6 +5,7 @@
 use vstd::prelude::*;
 use vstd::std_specs::hash::*;
 use vstd::std_specs::cmp::PartialEqSpec;
+use vstd::std_specs::iter::IteratorSpec;
 use std::collections::{HashMap, HashSet, VecDeque};
 use std::alloc::Allocator;
 verus! {
@@ -19,7 +20,7 @@ pub mod trusted {
     #[verifier::external_body]
     pub broadcast proof fn axiom_key_of_borrowed_same<K>(q: &K) ensures #[trigger] key_of_borrowed::<K, K>(q) == *q {}
 }
-broadcast use {vstd::std_specs::hash::group_hash_axioms, trusted::axiom_uid_key_model, trusted::axiom_circ_key_model, trusted::axiom_key_of_borrowed_same};
+broadcast use {vstd::std_specs::hash::group_hash_axioms, trusted::axiom_uid_key_model, trusted::axiom_circ_key_model, trusted::axiom_key_of_borrowed_same, trusted_byvalue_deque::axiom_deque_into_iter_obeys, vstd::laws_eq::group_laws_eq};
 pub type Uid = [u8; 16];
 
 pub assume_specification<T, A: std::alloc::Allocator>[ std::collections::VecDeque::<T, A>::is_empty ](v: &std::collections::VecDeque<T, A>) -> (r: bool)
@@ -60,10 +61,17 @@ pub mod mpsc {
 //@ extract src/synchronisation/room_locking_service.rs :: struct PeerLockRequest
 //@ end
 
-// E8 cut: `for room in rooms { if !lock_request.rooms.iter().any(|e| room.eq(e)) { lock_request.rooms.push_back(room); } }`
-// (VecDeque consumed by value: vec_deque::IntoIter has no Verus model).  ASSUMED: touches only `lock_request.rooms`.
+//@ include common/byvalue_iter.rs
+// E20 (VecDeque form): `d.iter().any(f)` -> this stub with std's semantics: some element satisfies the closure
 #[verifier::external_body]
-fn cut_merge_rooms(lock_request: &mut PeerLockRequest, rooms: VecDeque<Uid>) ensures final(lock_request).reply == old(lock_request).reply { unimplemented!() }
+pub fn deque_any<T, F: Fn(&T) -> bool>(d: &VecDeque<T>, f: F) -> (r: bool)
+    ensures r == (exists|i: int| 0 <= i < d@.len() && call_ensures(f, (&d@[i],), true)),
+            !r ==> forall|i: int| 0 <= i < d@.len() ==> call_ensures(f, (&#[trigger] d@[i],), false)
+{ unimplemented!() }
+// E33 (array form): `a.eq(b)` on `[u8; 16]` inside a closure -> this stub: the contents are compared
+#[verifier::external_body]
+pub fn uid_eq(a: &Uid, b: &Uid) -> (r: bool) ensures r == (*a == *b) { unimplemented!() }
+pub open spec fn is_prefix<T>(a: Seq<T>, b: Seq<T>) -> bool { a.len() <= b.len() && b.subrange(0, a.len() as int) =~= a }
 
 pub struct RoomLockService { x: u8 }
 
@@ -109,12 +117,36 @@ pub open spec fn at_most_one_grant(old_locked: Set<Uid>, old_av: usize, new_lock
 //@ attr #[verifier::exec_allows_no_decreases_clause]
 //@ insert body-start
     let mut receiver = receiver0;   // E9: captured variable of the async block
-//@ cut "for room in rooms" => "cut_merge_rooms(lock_request, rooms);"
+//@ rewrite E28 "for room in rooms \\{" => "for room in itr: deque_into_iter(rooms) invariant lock_request.reply == latest_reply, forall|x: Uid| pending0.contains(x) ==> #[trigger] lock_request.rooms@.contains(x), forall|i: int| 0 <= i < itr.index@ ==> lock_request.rooms@.contains(#[trigger] itr.seq()[i]), {" x1
+//@ rewrite E20 "lock_request\\.rooms\\.iter\\(\\)\\.any\\(" => "deque_any(&lock_request.rooms, " x1
+//@ rewrite E33 "room\\.eq\\(e\\)" => "uid_eq(&room, e)" x1
+//@ closure "|e|" as "|e|"
+                                    ensures b == (room == *e)
+//@ insert before-stmt "lock_request.rooms.iter().any("
+                                let ghost before = lock_request.rooms@;
+//@ insert after-stmt "lock_request.rooms.push_back(room);"
+                                    proof {
+                                        let r1 = lock_request.rooms@;
+                                        assert(r1 == before.push(room));
+                                        assert(r1[before.len() as int] == room);
+                                        assert forall|x: Uid| before.contains(x) implies r1.contains(x) by {
+                                            let j = choose|j: int| 0 <= j < before.len() && before[j] == x; assert(r1[j] == x);
+                                        }
+                                    }
+//@ insert before-stmt "for room in rooms"
+                            let ghost pending0 = lock_request.rooms@;
+                            let ghost requested = rooms@;
+                            proof { assert(<[u8; 16] as PartialEqSpec<[u8; 16]>>::obeys_eq_spec()); }
 //@ insert before-stmt "if let Some(lock_request) = peer_lock_request.get_mut(&circuit) {"
                         let ghost latest_reply = reply;
+                        let ghost pm0 = peer_lock_request@;
+                        let ghost rooms0 = rooms@;
 //@ insert before-stmt "let avail_iter = avalaible;"
                         // [grants_go_to_the_channel_of_the_latest_request] after a request, the pending entry of the circuit answers on the channel of THIS request: a new connection of a circuit is not left waiting on the channel of a connection that ended
                         assert(peer_lock_request@.contains_key(circuit) && peer_lock_request@[circuit].reply == latest_reply);
+                        // [repeated_request_keeps_the_pending_rooms] a request of a circuit that is already waiting ADDS its rooms to the pending ones: every room that was pending is still pending and every requested room is pending - none is forgotten
+                        assert(pm0.contains_key(circuit) ==> (forall|x: Uid| pm0[circuit].rooms@.contains(x) ==> #[trigger] peer_lock_request@[circuit].rooms@.contains(x))
+                            && forall|i: int| 0 <= i < rooms0.len() ==> peer_lock_request@[circuit].rooms@.contains(#[trigger] rooms0[i]));
 //@ rewrite E11 "\)\s*\.await;" => ");" x2
 //@ loop "while let Some(msg) = receiver.recv().await"
                 invariant
